@@ -7,7 +7,7 @@ import math, copy, random
 import numpy as np
 from .core import fhex, unhex, b01, Toks, Driver, Ctx, audit, finish
 from . import lensgen, c01, c02, realenc
-from .lensgen import dyadic
+from .lensgen import dyadic, INF
 
 GEO = ('x', 'y', 'z', 'L', 'M', 'N')
 
@@ -189,6 +189,8 @@ def t_dummy(ctx, rng, desc):
     s = d2['surfaces'][g]
     t = s['thickness']
     frac = dyadic(rng, 0.125, 0.875, 3)
+    if rng.random() < 0.25:
+        frac = rng.choice([0.0, 1.0])      # the dummy plane touches a neighbouring vertex: a gap of exactly 0
     mat = copy.deepcopy(s['material'])
     s['thickness'] = t * frac
     dummy = {'index': g + 1, 'radius': 'inf', 'thickness': t - t * frac, 'material': mat}
@@ -199,7 +201,20 @@ def t_dummy(ctx, rng, desc):
     w = o1.wavelengths.get_wavelengths()[0]
     px, py = pupil(rng, 8)
     Hy = rng.choice([0.0, 1.0])
-    case = {'desc': desc, 'transform': 'dummy surface after %d' % g, 'Hy': Hy, 'px': px, 'py': py}
+    case = {'desc': desc, 'transform': 'dummy surface after %d' % g, 'Hy': Hy, 'px': px, 'py': py, 'frac': frac}
+    # vertex positions: every surface stays where it was, the dummy sits at z_g + frac * t
+    z1 = [float(np.ravel(q.geometry.cs.z)[0]) for q in o1.surface_group.surfaces]
+    z2 = [float(np.ravel(q.geometry.cs.z)[0]) for q in o2.surface_group.surfaces]
+    exp = z1[:g + 1] + [z1[g] + t * frac] + z1[g + 1:]
+    if any(abs(a - b) > 1e-9 * max(1.0, abs(b)) for a, b in zip(z2[1:], exp[1:])):
+        ctx.fail('dummy surface between equal media: every vertex stays where it was, the dummy plane sits inside '
+                 'the gap', case, z2, exp)
+        return
+    ctx.count('dummy: vertex positions checked' + (' (gap of exactly 0)' if frac in (0.0, 1.0) else ''))
+    if frac in (0.0, 1.0):
+        touched = desc['surfaces'][g] if frac == 0.0 else desc['surfaces'][g + 1]
+        if touched.get('radius', 'inf') not in ('inf', INF) or touched.get('surface_type', 'standard') != 'standard':
+            return      # rays would have to travel backwards between the curved surface and its tangent plane
     A = traced(o1, 0.0, Hy, px, py, w)
     if isinstance(A, tuple):
         return
